@@ -5,7 +5,7 @@
 #   3. run ./check <ID> against the patched copy (harness/mutcheck.sh)
 #   4. store patch, demo and meta.json under /verif/seeded/<id>/
 ID=$1; OUT=${2:-/tmp/seed_${ID}_out}; PID=$(echo $ID | tr a-z A-Z | cut -c1-3)
-S=/tmp/sv_base
+S=/tmp/sv_base${SVTAG:+_$SVTAG}
 [ -f $OUT/patch.diff ] || { echo "no patch in $OUT"; exit 2; }
 tests() {
   ( cd $S/_build/unit_tests && for t in ondriks_mtbdd_c_test timbuk_parser_test bdd_bu_tree_aut_test bdd_td_tree_aut_test explicit_tree_aut_test; do
@@ -17,9 +17,9 @@ HEADNOW=$(git -C /repo rev-parse HEAD)
 if [ ! -f $S/.base_head ] || [ "$(cat $S/.base_head)" != "$HEADNOW" ]; then     # clean base build of the current /repo HEAD, reused by later calls
   rm -rf $S; rsync -a --exclude _build --exclude .git /repo/ $S/
   cmake -G Ninja -S $S -B $S/_build >/dev/null 2>&1 && cmake --build $S/_build -j12 >/dev/null 2>&1 || { echo "clean build failed"; exit 2; }
-  tests > /tmp/sv_base_tests.txt; echo $HEADNOW > $S/.base_head
+  tests > $S.tests.txt; echo $HEADNOW > $S/.base_head
 fi
-cp /tmp/sv_base_tests.txt /tmp/sv_${ID}_before.txt
+cp $S.tests.txt /tmp/sv_${ID}_before.txt
 ( cd $OUT && sh ./run_demo.sh $S ) > /tmp/sv_${ID}_demo_before.txt 2>&1; D0=$?
 ( cd $S && patch -p1 -s --no-backup-if-mismatch < $OUT/patch.diff ) || { echo "patch does not apply"; exit 2; }
 cmake --build $S/_build -j12 >/dev/null 2>&1 || { echo "patched build failed"; ( cd $S && patch -R -p1 -s < $OUT/patch.diff ); exit 2; }
